@@ -36,7 +36,7 @@ def render_kinds(f, rng):
     out = []
     for i, k in enumerate(f, 1):
         if k == "c":
-            out.append(rng.choice(["# comment %d", "  # comment %d", "#comment %d"]) % i)
+            out.append(rng.choice(["# comment %d", "  # comment %d", "#comment %d", "\t# comment %d", " \t # comment %d"]) % i)
         elif k == "b":
             out.append("")
         elif k == "h":
@@ -74,6 +74,24 @@ def split_records(ctx, files):
 
 
 # ------------------------------------------------------------------ (b) metamorphic pairs
+# hand-written seeds whose lines begin (after the diff marker) with an operator, a closing
+# bracket, a string or a keyword: the marker must be cut off as exactly one character
+EXTRA_CASES = [
+    dict(name="extra/unary-minus-line", patch="@@\nvar x expression\n@@\n report(\n \t-1,\n-\tx,\n+\twrap(x),\n )\n",
+         src="package a\n\nfunc f() {\n\treport(-1, a)\n\treport(1, a)\n\treport(-1, b+c)\n}\n"),
+    dict(name="extra/unary-minus-first", patch="@@\nvar x expression\n@@\n report(\n -1,\n-x,\n+wrap(x),\n )\n",
+         src="package a\n\nfunc f() {\n\treport(-1, a)\n\treport(1, a)\n}\n"),
+    dict(name="extra/unary-plus-line", patch="@@\nvar x, y expression\n@@\n sum(x,\n +y,\n-0)\n+1)\n",
+         src="package a\n\nfunc f() {\n\tsum(a, +b, 0)\n\tsum(a, b, 0)\n}\n"),
+    dict(name="extra/stmt-operators", patch="@@\n@@\n v := compute(\n -offset,\n +limit,\n *ptr,\n &val,\n !ok,\n ^mask,\n <-ch,\n )\n-use(v)\n+use2(v)\n",
+         src="package a\n\nfunc f() {\n\tv := compute(-offset, +limit, *ptr, &val, !ok, ^mask, <-ch)\n\tuse(v)\n}\n\nfunc g() {\n\tv := compute(offset, limit, *ptr, &val, !ok, ^mask, <-ch)\n\tuse(v)\n}\n"),
+    dict(name="extra/binary-continuation", patch="@@\nvar x, y expression\n@@\n total(x +\n y -\n-1)\n+2)\n",
+         src="package a\n\nfunc f() {\n\ttotal(a + b - 1)\n\ttotal(a - b - 1)\n}\n"),
+    dict(name="extra/decrement-stmt", patch="@@\nvar i identifier\n@@\n i--\n-work(i)\n+work2(i)\n i++\n",
+         src="package a\n\nfunc f(n int) {\n\tn--\n\twork(n)\n\tn++\n}\n"),
+]
+
+
 def parse_txtar(path):
     files, name, buf = {}, None, []
     for line in open(path).read().split("\n"):
@@ -103,8 +121,7 @@ def base_cases(ctx):
         for k in sorted(fs):
             if k.endswith(".in.go"):
                 cases.append(dict(name=os.path.basename(p) + "/" + k, patch=fs[patches[0]], src=fs[k]))
-    for v in json.load(open(os.path.join(VERIF, "corpus/nearmiss/vectors.json"))):
-        pass
+    cases += EXTRA_CASES
     return cases
 
 
@@ -139,7 +156,7 @@ def ndots(lines, idxs, prefix):
 def t1_comments(lines, changes, rng):
     out = list(lines)
     for _ in range(rng.randint(1, 3)):
-        out.insert(rng.randint(0, len(out)), rng.choice(["# extra", "   # indented extra", "#"]))
+        out.insert(rng.randint(0, len(out)), rng.choice(["# extra", "   # indented extra", "#", "\t# tab-indented extra", " \t# mixed indentation"]))
     return out
 
 
